@@ -4628,6 +4628,8 @@ impl<'a> Parser<'a> {
     }
 
     fn advance(&mut self) {
+        #[cfg(feature = "verif-hooks")]
+        crate::verif_hooks::parser_work();
         self.previous = mem::replace(&mut self.current, self.lexer.next_token());
     }
 
